@@ -642,9 +642,10 @@ fn prov_tokens(kind: &Prov, d: &Defs, sp: &SimpleP, rp: &RegexP, ctx: &Ctx) -> S
     match kind {
         Prov::M => format!("mdef={} unk={} poslist={} nl={} nr={} unkge={}", hex(d.char_def.as_bytes()), hex(d.unk_def.as_bytes()), ctx.poslist_hex, N_IDS, N_IDS, if source_unk_ge() { 1 } else { 0 }),
         Prov::S => format!("sp={}:{}:{}:{}", sp.l, sp.r, sp.cost, sp.pos),
-        Prov::R => format!("rp={}:{}:{}:{} re={} maxlen={} strict={}", rp.l, rp.r, rp.cost, rp.pos,
+        // `rxempty=skip`: the linked tree's `provide_oov` ignores an empty match (behavioural probe in c03.rs)
+        Prov::R => format!("rp={}:{}:{}:{} re={} maxlen={} strict={}{}", rp.l, rp.r, rp.cost, rp.pos,
             join(rp.alts.iter().map(|a| format!("{}:{}:{}", a.min, a.max.map_or(0, |m| m + 1), join(a.set.iter().map(|c| *c as u32), "."))), ";"),
-            rp.max_length, rp.strict as u8),
+            rp.max_length, rp.strict as u8, if crate::c03::regex_skips_empty() { " rxempty=skip" } else { "" }),
     }
 }
 
